@@ -117,10 +117,14 @@ func (e *Excluded) Error() string { return "excluded by known finding " + e.Key 
 // knownClass maps a generated violation (a property of the generated case, not of the outcome) and the
 // reference's verdict to the key of the known finding whose class it belongs to.
 func knownClass(n *MNode) string {
-	if n.ConnErr == nil {
+	err := n.ConnErr
+	if err == nil {
+		err = n.CheckErr // (the reference counts legacy sig-ops before connecting, gocoin when connecting)
+	}
+	if err == nil {
 		return ""
 	}
-	e := n.ConnErr.Error()
+	e := err.Error()
 	switch {
 	case n.Viol == "sigops:after-opreturn+4" && e == "bad-blk-sigops":
 		return "F6-sigops-after-opreturn"
@@ -835,7 +839,11 @@ func (s *Sim) settle(n, oldTip *MNode, gerr error, what string, fuzzy bool) erro
 		// error contract of AcceptBlock: nil when the block was stored and (connected, or not heavier)
 		wantErr := heavier && s.Tip != n
 		if wantErr && gerr == nil {
-			return fmt.Errorf("%s: heavier than the tip but the node did not end on it (model tip %x); AcceptBlock reported no error", what, s.Tip.Idx.Hash[:6])
+			msg := fmt.Sprintf("%s: heavier than the tip but the node did not end on it (model tip %x); AcceptBlock reported no error", what, s.Tip.Idx.Hash[:6])
+			if k := knownClass(n); k != "" && s.Open != nil && s.Open(k) {
+				return &Excluded{k, msg}
+			}
+			return fmt.Errorf("%s", msg)
 		}
 		if !wantErr && gerr != nil {
 			return fmt.Errorf("%s: node reported %v; the reference expected it to be stored/connected without error", what, gerr)
